@@ -1,3 +1,4 @@
+import PT.Lemmas.NumOrder
 import PT.Lemmas.Order
 import PT.Lemmas.Map
 /-!
@@ -50,5 +51,17 @@ theorem iter_from_node (t : Tree w V) : iterAll [t] = t.entries := iterAll_root 
 /-- `Iter::default()`: the empty stack yields nothing -/
 theorem default_iter_empty : iterAll ([] : List (Tree w V)) = [] := by
   rw [iterAll_eq]; rfl
+
+
+/-- the order in the property's own words: ascending by network address (`mask()` as an unsigned
+integer) and, for equal addresses, by prefix length -/
+theorem iter_sorted_numeric {m : PMap w V} (h : m.TreeWF) :
+    m.iter.Pairwise (fun a b => a.1.mask.toNat < b.1.mask.toNat ∨ (a.1.mask = b.1.mask ∧ a.1.len < b.1.len)) :=
+  (iter_sorted h).imp (fun {a b} hab => (Pfx.keyLt_iff_numeric a.1 b.1).1 hab)
+
+/-- the two readings of the order coincide for all prefixes (host bits arbitrary) -/
+theorem order_numeric_iff (a b : Pfx w) :
+    Spec.keyLt a.net b.net = true ↔ a.mask.toNat < b.mask.toNat ∨ (a.mask = b.mask ∧ a.len < b.len) :=
+  Pfx.keyLt_iff_numeric a b
 
 end PT.C03
